@@ -1,4 +1,213 @@
 package main
 
+import (
+	"fmt"
+
+	"golang.org/x/tools/go/ssa"
+)
+
+// big.Int contents are kept in a side table keyed by the *big.Int pointer:
+// TupleV{neg Bool, w0, w1, w2 BV64} = sign and 192-bit magnitude (little endian words).
+const bigWords = 3
+
+func (x *Exec) bigGet(st *State, p Value) TupleV {
+	k := "big:" + p.(PtrV).String()
+	if v, ok := st.ghost[k]; ok {
+		return v.(TupleV)
+	}
+	z := x.tc.Const(64, 0)
+	return TupleV{x.tc.False, z, z, z}
+}
+
+func (x *Exec) bigSet(st *State, p Value, v TupleV) {
+	st.ghost["big:"+p.(PtrV).String()] = v
+	st.mutGen++
+}
+
+// two's complement of sign-magnitude
+func (x *Exec) bigToTC(v TupleV) []*Term {
+	neg := v[0].(*Term)
+	w := []*Term{v[1].(*Term), v[2].(*Term), v[3].(*Term)}
+	n := x.mwNeg(w)
+	out := make([]*Term, bigWords)
+	for i := range out {
+		out[i] = x.tc.Ite(neg, n[i], w[i])
+	}
+	return out
+}
+
+func (x *Exec) mwNeg(w []*Term) []*Term {
+	out := make([]*Term, len(w))
+	carry := x.tc.True
+	for i := range w {
+		nw := x.tc.BVNot(w[i])
+		s := x.tc.BinBV("bvadd", nw, x.tc.Ite(carry, x.tc.Const(64, 1), x.tc.Const(64, 0)))
+		// carry out iff carry in and nw == all ones
+		carry = x.tc.And(carry, x.tc.Eq(nw, x.tc.Const(64, ^uint64(0))))
+		out[i] = s
+	}
+	return out
+}
+
+func (x *Exec) mwAdd(a, b []*Term) []*Term {
+	out := make([]*Term, len(a))
+	carry := x.tc.False
+	for i := range a {
+		s1 := x.tc.BinBV("bvadd", a[i], b[i])
+		c1 := x.tc.Cmp("bvult", s1, a[i])
+		s2 := x.tc.BinBV("bvadd", s1, x.tc.Ite(carry, x.tc.Const(64, 1), x.tc.Const(64, 0)))
+		c2 := x.tc.And(carry, x.tc.Eq(s1, x.tc.Const(64, ^uint64(0))))
+		out[i] = s2
+		carry = x.tc.Or(c1, c2)
+	}
+	return out
+}
+
+func (x *Exec) bigFromTC(w []*Term) TupleV {
+	neg := x.tc.Cmp("bvslt", w[bigWords-1], x.tc.Const(64, 0))
+	n := x.mwNeg(w)
+	out := TupleV{neg}
+	for i := range w {
+		out = append(out, x.tc.Ite(neg, n[i], w[i]))
+	}
+	return out
+}
+
 func registerMoreIntrinsics() {
+	intrinsics["math/big.NewInt"] = func(x *Exec, st *State, fr *Frame, fn *ssa.Function, a []Value) (Value, int) {
+		v := a[0].(*Term)
+		p := st.alloc(x.zero(typeOfPtrElem(fn.Signature.Results().At(0).Type())))
+		neg := x.tc.Cmp("bvslt", v, x.tc.Const(64, 0))
+		mag := x.tc.Ite(neg, x.tc.BVNeg(v), v)
+		z := x.tc.Const(64, 0)
+		x.bigSet(st, p, TupleV{neg, mag, z, z})
+		return ret1(p)
+	}
+	intrinsics["(*math/big.Int).SetBytes"] = func(x *Exec, st *State, fr *Frame, fn *ssa.Function, a []Value) (Value, int) {
+		s := a[1].(SliceV)
+		if s.len > 16 {
+			panic(x.unsupported("big.Int.SetBytes with more than 16 bytes"))
+		}
+		ws := []*Term{x.tc.Const(64, 0), x.tc.Const(64, 0), x.tc.Const(64, 0)}
+		for k := 0; k < s.len; k++ {
+			b := x.load(st, x.sliceElemPtr(s, s.len-1-k)).(*Term) // k-th least significant byte
+			wi := k / 8
+			sh := uint64(8 * (k % 8))
+			ws[wi] = x.tc.BinBV("bvor", ws[wi], x.tc.BinBV("bvshl", x.tc.ZExt(b, 64), x.tc.Const(64, sh)))
+		}
+		x.bigSet(st, a[0], TupleV{x.tc.False, ws[0], ws[1], ws[2]})
+		return ret1(a[0])
+	}
+	intrinsics["(*math/big.Int).Add"] = func(x *Exec, st *State, fr *Frame, fn *ssa.Function, a []Value) (Value, int) {
+		xs := x.bigToTC(x.bigGet(st, a[1]))
+		ys := x.bigToTC(x.bigGet(st, a[2]))
+		x.bigSet(st, a[0], x.bigFromTC(x.mwAdd(xs, ys)))
+		return ret1(a[0])
+	}
+	intrinsics["(*math/big.Int).Sign"] = func(x *Exec, st *State, fr *Frame, fn *ssa.Function, a []Value) (Value, int) {
+		v := x.bigGet(st, a[0])
+		zero := x.tc.And(x.tc.Eq(v[1].(*Term), x.tc.Const(64, 0)), x.tc.Eq(v[2].(*Term), x.tc.Const(64, 0)), x.tc.Eq(v[3].(*Term), x.tc.Const(64, 0)))
+		return ret1(x.tc.Ite(zero, x.tc.Const(64, 0), x.tc.Ite(v[0].(*Term), x.tc.Const(64, ^uint64(0)), x.tc.Const(64, 1))))
+	}
+	intrinsics["(*math/big.Int).Bytes"] = func(x *Exec, st *State, fr *Frame, fn *ssa.Function, a []Value) (Value, int) {
+		v := x.bigGet(st, a[0])
+		// big-endian bytes of the magnitude with leading zero bytes dropped
+		nb := bigWords * 8
+		bytes := make([]*Term, nb)
+		for k := 0; k < nb; k++ { // k-th least significant
+			w := v[1+k/8].(*Term)
+			bytes[nb-1-k] = x.tc.Extract(8*(k%8)+7, 8*(k%8), w)
+		}
+		// number of leading zero bytes
+		conds := make([]*Term, nb+1)
+		var zeros []*Term
+		for k := 0; k <= nb; k++ {
+			if k < nb {
+				nz := x.tc.Not(x.tc.Eq(bytes[k], x.tc.Const(8, 0)))
+				conds[k] = x.tc.And(append(append([]*Term(nil), zeros...), nz)...)
+				zeros = append(zeros, x.tc.Eq(bytes[k], x.tc.Const(8, 0)))
+			} else {
+				conds[k] = x.tc.And(zeros...)
+			}
+		}
+		lead := x.choose(st, conds, "big.Int.Bytes leading zeros")
+		n := nb - lead
+		arr := &ArrayV{e: make([]Value, n)}
+		for k := 0; k < n; k++ {
+			arr.e[k] = bytes[lead+k]
+		}
+		if n == 0 {
+			return ret1(SliceV{base: st.alloc(arr), off: 0, len: 0, cap: 0})
+		}
+		p := st.alloc(arr)
+		return ret1(SliceV{base: p, off: 0, len: n, cap: n})
+	}
+
+	// hashes: functional + injective (already on the first 5 output bytes = 40 bits) abstraction
+	intrinsics[zz+"HashBytes"] = func(x *Exec, st *State, fr *Frame, fn *ssa.Function, a []Value) (Value, int) {
+		kind := x.concInt(a[0], "HashBytes kind")
+		in := a[1].(SliceV)
+		n := int(x.concInt(a[2], "HashBytes size"))
+		inb := make([]*Term, in.len)
+		for k := range inb {
+			inb[k] = x.load(st, x.sliceElemPtr(in, k)).(*Term)
+		}
+		cnt := 0
+		if c, ok := st.ghost["$hashcount"]; ok {
+			cnt = int(c.(*Term).val)
+		}
+		out := make([]*Term, n)
+		for k := range out {
+			out[k] = x.tc.Var(fmt.Sprintf("hash%d.%d[%d]", kind, cnt, k), BV(8))
+		}
+		// relate to earlier applications of the same hash on this path
+		for j := 0; j < cnt; j++ {
+			pk := st.ghost[fmt.Sprintf("$hash:%d:kind", j)].(*Term)
+			if int64(pk.val) != kind {
+				continue
+			}
+			pin := st.ghost[fmt.Sprintf("$hash:%d:in", j)].(TupleV)
+			pout := st.ghost[fmt.Sprintf("$hash:%d:out", j)].(TupleV)
+			sameIn := x.tc.False
+			if len(pin) == len(inb) {
+				var cs []*Term
+				for k := range inb {
+					cs = append(cs, x.tc.Eq(inb[k], pin[k].(*Term)))
+				}
+				sameIn = x.tc.And(cs...)
+			}
+			var allEq, prefEq []*Term
+			for k := range out {
+				e := x.tc.Eq(out[k], pout[k].(*Term))
+				allEq = append(allEq, e)
+				if k < 5 {
+					prefEq = append(prefEq, e)
+				}
+			}
+			x.assume(st, x.tc.Implies(sameIn, x.tc.And(allEq...)))          // function
+			x.assume(st, x.tc.Implies(x.tc.And(prefEq...), sameIn))           // no collision (assumed)
+		}
+		tin := make(TupleV, len(inb))
+		for k := range inb {
+			tin[k] = inb[k]
+		}
+		tout := make(TupleV, n)
+		for k := range out {
+			tout[k] = out[k]
+		}
+		st.ghost[fmt.Sprintf("$hash:%d:kind", cnt)] = x.tc.Const(64, uint64(kind))
+		st.ghost[fmt.Sprintf("$hash:%d:in", cnt)] = tin
+		st.ghost[fmt.Sprintf("$hash:%d:out", cnt)] = tout
+		st.ghost["$hashcount"] = x.tc.Const(64, uint64(cnt+1))
+		arr := &ArrayV{e: make([]Value, n)}
+		for k := range out {
+			arr.e[k] = out[k]
+		}
+		p := st.alloc(arr)
+		return ret1(SliceV{base: p, off: 0, len: n, cap: n})
+	}
+	redirects["crypto/sha1.New"] = "M_sha1_New"
+	redirects["crypto/md5.New"] = "M_md5_New"
+	redirects["crypto/md5.Sum"] = "M_md5_Sum"
+	redirects["crypto/sha1.Sum"] = "M_sha1_Sum"
 }
